@@ -20,7 +20,8 @@ import (
 // input is one scenario plus what the generator knows about it.
 type input struct {
 	nodeh.Scenario
-	Class string `json:"class"`
+	Class  string `json:"class"`
+	Detail string `json:"detail,omitempty"` // peer class / position of the receiver / route (statistics only)
 }
 
 var pool *nodeh.Pool
@@ -236,8 +237,11 @@ func subject(rng *rand.Rand, tree nodeh.TreeSpec, ns []flatNode, me, typ, from, 
 	} else if ns[me].nch == 0 {
 		where = "leaf"
 	}
-	cl := fmt.Sprintf("%s/sender-%s/peer-%s/at-%s/%s", kindName[typ], senderClass(from), peerClass(ns, from, peer), where, route)
-	return input{Scenario: nodeh.Scenario{Tree: tree, Insts: []int{me}, Msgs: msgs}, Class: cl}
+	// the class is what a finding's signature is matched against: keep it to the
+	// claimed sender and the registration kind; the rest goes into the detail
+	cl := fmt.Sprintf("table/sender-%s/%s", senderClass(from), kindName[typ])
+	det := fmt.Sprintf("peer-%s/at-%s/%s", peerClass(ns, from, peer), where, route)
+	return input{Scenario: nodeh.Scenario{Tree: tree, Insts: []int{me}, Msgs: msgs}, Class: cl, Detail: det}
 }
 
 func exhaustive(rng *rand.Rand, trees []nodeh.TreeSpec, absentBudget *int, sampleAbsent int) []interface{} {
@@ -268,7 +272,10 @@ func exhaustive(rng *rand.Rand, trees []nodeh.TreeSpec, absentBudget *int, sampl
 		for p := range ns {
 			froms = append(froms, p)
 		}
-		froms = append(froms, nodeh.FromAbsent, nodeh.FromRandom, nodeh.FromOtherTree, nodeh.FromNonMember)
+		froms = append(froms, nodeh.FromAbsent, nodeh.FromRandom, nodeh.FromOtherTree)
+		if len(servers) < nodeh.Outsider {
+			froms = append(froms, nodeh.FromNonMember) // only when some cluster server is not in the tree
+		}
 		for me := range ns {
 			for _, typ := range []int{nodeh.TH1, nodeh.THA, nodeh.TC1, nodeh.TCA} {
 				for _, from := range froms {
@@ -291,7 +298,7 @@ func exhaustive(rng *rand.Rand, trees []nodeh.TreeSpec, absentBudget *int, sampl
 		if *absentBudget <= 0 {
 			break
 		}
-		key := in.Class[:strings.LastIndex(in.Class, "/")]
+		key := in.Class + "/" + in.Detail[:strings.LastIndex(in.Detail, "/")]
 		if seen[key] >= sampleAbsent {
 			continue
 		}
@@ -333,6 +340,13 @@ func randomScenario(rng *rand.Rand, allowAbsent bool) input {
 			from = nodeh.FromOtherTree
 		case r == 8:
 			from = nodeh.FromNonMember
+			used := map[int]bool{}
+			for _, x := range ns {
+				used[x.srv] = true
+			}
+			if len(used) >= nodeh.Outsider {
+				from = nodeh.FromRandom
+			}
 		default:
 			from = nodeh.FromAbsent
 			if !allowAbsent {
@@ -360,13 +374,17 @@ func randomScenario(rng *rand.Rand, allowAbsent bool) input {
 		msgs = append(msgs, fence(inst, f))
 		f++
 	}
-	var cs []string
-	for _, c := range []string{"sender-member", "sender-absent", "sender-random", "sender-othertree", "sender-nonmember"} {
-		if classes[c] {
-			cs = append(cs, c)
-		}
+	cl := "mixed"
+	if classes["sender-absent"] {
+		cl += "/sender-absent"
 	}
-	return input{Scenario: nodeh.Scenario{Tree: tr, Insts: insts, Msgs: msgs}, Class: "mixed/" + strings.Join(cs, "+")}
+	if classes["sender-random"] || classes["sender-othertree"] || classes["sender-nonmember"] {
+		cl += "/sender-unknown"
+	}
+	if cl == "mixed" {
+		cl = "mixed/members-only"
+	}
+	return input{Scenario: nodeh.Scenario{Tree: tr, Insts: insts, Msgs: msgs}, Class: cl}
 }
 
 func generate(rng *rand.Rand, tier string) []interface{} {
@@ -385,6 +403,7 @@ func generate(rng *rand.Rand, tier string) []interface{} {
 		for i := 0; i < 400; i++ {
 			ins = append(ins, randomScenario(rng, i%20 == 0))
 		}
+		ins = append(ins, tcpTable(rng, 4)...)
 		return ins
 	}
 	budget := 400
@@ -399,6 +418,43 @@ func generate(rng *rand.Rand, tier string) []interface{} {
 	for i := 0; i < 6000; i++ {
 		ins = append(ins, randomScenario(rng, i%20 == 0))
 	}
+	ins = append(ins, tcpTable(rng, 12)...)
+	return ins
+}
+
+// tcpTable: the sender x peer table on one 3-node tree, every forged message over a real
+// TCP connection from the (byzantine) peer's server.
+func tcpTable(rng *rand.Rand, absent int) []interface{} {
+	var ins []interface{}
+	tr := nd(0, leaf(1), leaf(2))
+	var ns []flatNode
+	flatten(&tr, -1, &ns)
+	for me := range ns {
+		for _, typ := range []int{nodeh.TH1, nodeh.THA, nodeh.TC1, nodeh.TCA} {
+			for _, from := range []int{0, 1, 2, nodeh.FromAbsent, nodeh.FromRandom, nodeh.FromOtherTree, nodeh.FromNonMember} {
+				for _, peer := range []int{0, 1, 2, 3, nodeh.Outsider} {
+					if peer == ns[me].srv {
+						continue // a server does not connect to itself
+					}
+					if from == nodeh.FromAbsent {
+						if absent <= 0 || rng.Intn(6) != 0 {
+							continue
+						}
+						absent--
+					}
+					in := subject(rng, tr, ns, me, typ, from, peer)
+					for i := range in.Msgs {
+						if in.Msgs[i].Type != nodeh.TFence && in.Msgs[i].Peer != ns[me].srv && in.Msgs[i].Peer >= 0 {
+							in.Msgs[i].Route = "conn"
+						}
+					}
+					in.Net = "tcp"
+					in.Detail += "/tcp"
+					ins = append(ins, in)
+				}
+			}
+		}
+	}
 	return ins
 }
 
@@ -408,83 +464,22 @@ func corpus() []interface{} {
 		return input{Scenario: nodeh.Scenario{Tree: two, Insts: []int{0}, Msgs: []nodeh.Msg{
 			{Inst: 0, From: from, Peer: 1, Wire: -1, Type: typ, Payload: 42, Route: "conn"}, fence(0, 100)}}, Class: class}
 	}
+	tcp := mk(0, nodeh.TH1, "table/sender-member/handler-single")
+	tcp.Net = "tcp"
+	tcp.Msgs[0].Wire = 0 // the wire message's own identity field names the root's server
 	return []interface{}{
+		// a member claiming to be the root over a real TCP connection is refused
+		tcp,
 		// F02 (Node/VerifyProofs.v placeholder_refuted): member 1 names a node id that is not in the tree
-		mk(nodeh.FromRandom, nodeh.TH1, "handler-single/sender-random/peer-othermember/at-root/conn"),
+		mk(nodeh.FromRandom, nodeh.TH1, "table/sender-random/handler-single"),
 		// F03 (nosender_refuted): no sender token at all
-		mk(nodeh.FromAbsent, nodeh.TH1, "handler-single/sender-absent/peer-othermember/at-root/conn"),
+		mk(nodeh.FromAbsent, nodeh.TH1, "table/sender-absent/handler-single"),
 		// regression: a member claiming to be the root is refused
-		mk(0, nodeh.TH1, "handler-single/sender-member/peer-othermember/at-root/conn"),
+		mk(0, nodeh.TH1, "table/sender-member/handler-single"),
 	}
 }
 
 // ------------------------------------------------------------------ run ----
-
-func coqTree(ns []nodeh.Node, p int) string {
-	var ch []string
-	for i, n := range ns {
-		if n.Parent == p {
-			ch = append(ch, coqTree(ns, i))
-		}
-	}
-	return fmt.Sprintf("T %d %d [%s]", ns[p].ID, ns[p].Srv, strings.Join(wrap(ch), "; "))
-}
-
-func wrap(xs []string) []string {
-	r := make([]string, len(xs))
-	for i, x := range xs {
-		r[i] = x
-	}
-	return r
-}
-
-func coqPeer(p int) string {
-	switch {
-	case p == nodeh.PeerNone:
-		return "PNone"
-	case p == nodeh.PeerNoKey:
-		return "PNoKey"
-	}
-	return fmt.Sprintf("(PKey %d)", p)
-}
-
-func coqOpt(v int) string {
-	if v < 0 {
-		return "None"
-	}
-	return fmt.Sprintf("(Some %d)", v)
-}
-
-// CoqCase renders scenario + result as a Corr.C02.case / Corr.C04.case literal
-// (both use the constructor functions C, I, D, E).
-func CoqCase(sc *nodeh.Scenario, r *nodeh.Result) string {
-	var msgs, obs []string
-	for i, m := range sc.Msgs {
-		msgs = append(msgs, fmt.Sprintf("I %d %s %s %s %s %d %d", m.Inst, coqPeer(m.Peer), coqOpt(r.FromIDs[i]),
-			lib.Bool(m.OtherTree), coqOpt(m.Wire), m.Type, m.Payload))
-	}
-	for _, d := range r.Deliveries {
-		var es []string
-		for _, e := range d.Elems {
-			node := "ONil"
-			if e.Node == -2 {
-				node = "OForeign"
-			} else if e.Node >= 0 {
-				node = fmt.Sprintf("(OPos %d)", e.Node)
-			}
-			es = append(es, fmt.Sprintf("E %s %d", node, e.Payload))
-		}
-		obs = append(obs, fmt.Sprintf("D %d %d %s [%s]", d.Inst, d.Type, lib.Bool(d.Agg), strings.Join(es, "; ")))
-	}
-	fin := map[string]string{"alive": "FAlive", "crashed": "FCrashed", "hung": "FHung"}[r.Status]
-	// an instance is named by the TreeNodeID of its To token
-	toIDs := make([]int, len(sc.Insts))
-	for k, me := range sc.Insts {
-		toIDs[k] = r.Nodes[me].ID
-	}
-	return fmt.Sprintf("C (%s) %s [%s] [%s] %s", coqTree(r.Nodes, 0), lib.NatList(toIDs),
-		strings.Join(msgs, "; "), strings.Join(obs, "; "), fin)
-}
 
 func run(raw json.RawMessage) lib.Case {
 	var in input
@@ -510,7 +505,7 @@ func run(raw json.RawMessage) lib.Case {
 		Status     string           `json:"status"`
 		Detail     string           `json:"detail,omitempty"`
 	}
-	return lib.Case{Coq: CoqCase(&in.Scenario, &res), Class: class,
+	return lib.Case{Coq: nodeh.CoqCase(&in.Scenario, &res), Class: class,
 		Obs: obsT{res.Deliveries, res.Status, res.Detail}, Nontrivial: true}
 }
 
@@ -526,7 +521,8 @@ func main() {
 		Import: "Onet.Corr.C02",
 		Rule: "every (tree shape <= 4 nodes incl. repeated servers) x receiving node x registration kind (handler/channel x single/aggregated) x " +
 			"claimed sender (each node, absent, random id, node of another tree, non-member) x envelope peer (each member, non-member, outsider, none, key-less), " +
-			"a seeded part of the same table for 5-6 node trees, and seeded multi-message scenarios; routes: Overlay.Process, Overlay.TransmitMsg, real router connection; " +
+			"a seeded part of the same table for 5-6 node trees, seeded multi-message scenarios, and the sender x peer table of a 3-node tree on servers with real TCP sockets; " +
+			"routes: Overlay.Process, Overlay.TransmitMsg, a router connection of the (byzantine) peer's server (in-memory transport or TCP); " +
 			"sender-less messages (they kill the pinned code's process) are a seeded sample; distinct = distinct Coq case term",
 		Shard:    250,
 		Generate: generate,
